@@ -73,6 +73,8 @@ func initProperties() {
 				use("LOOPPROGRESS", "search loops consume", anyOf(thriftGeneric, thriftPkg)),
 				use("UNKNOWNSKIP", "unknown fields skipped", anyOf(thriftGeneric, thriftPkg)),
 				use("RECDEPTH", "recursion budget", anyOf(thriftGeneric)),
+				use("KINDEXH", "type switches exhaustive", anyOf(thriftGeneric, thriftPkg)),
+				use("ADVANCEPOS", "skip helpers advance", thriftPkg),
 			)},
 		{ID: "C02", Title: "JSON->Thrift conversion encodes exactly the value the JSON denotes", QuickP: true,
 			Decides: "option plumbing into the native FSM (FLAGSYNC: every conv.Option that affects j2t reaches its own flag bit, flags recomputed after every options write), the native status is tested and handled (NATIVERET), and for the portable converter (config P): every JSON-kind case of doRecurse ends in a return (CASEEXIT), the portable code reads the same options the flag table maps (OPTAGREE), no error dropped (DROPERR), thrift type switch exhaustive (KINDEXH).",
@@ -100,6 +102,8 @@ func initProperties() {
 				use("ERRSWALLOW", "errors propagate", inPkgs("conv/t2j")),
 				use("LOOPPROGRESS", "loops consume", inPkgs("conv/t2j")),
 				use("NILLOOKUP", "lookups checked", inPkgs("conv/t2j")),
+				use("NATIVEQUOTE", "string escaper retry contract", nil),
+				use("POOLESCAPE", "result copied out of the pooled buffer", inPkgs("conv/t2j")),
 			)},
 		{ID: "C04", Title: "Thrift in-place edits change exactly the addressed element",
 			Decides: "every locator loop of the mutators has a not-found exit and no in-place size patch precedes a fallible step (NOTFOUNDEXIT), name->id translation checks the lookup (NILLOOKUP), in-place patching of the caller's bytes is confined to the mutators (INPUTRO), insertion errors propagate (DROPERR).",
@@ -109,6 +113,7 @@ func initProperties() {
 				use("NILLOOKUP", "name->id checked", funcHas("thrift/generic.Value).SetByPath", "thrift/generic.Value).UnsetByPath", "thrift/generic.GetDescByPath")),
 				use("INPUTRO", "patching confined", thriftGeneric),
 				use("DROPERR", "errors propagate", func(o *Obl) bool { return thriftGeneric(o) && mutators(o) }),
+				use("KINDEXH", "key/type switches exhaustive", thriftGeneric),
 			)},
 		{ID: "C05", Title: "Thrift DOM load/marshal is lossless; DOM edits marshal as edited",
 			Decides: "the by-id slot threshold is compared identically at load, lookup and store (THRESHAGREE), PathNode.marshal covers every thrift type and writes headers before elements (KINDEXH, HDRFIRST), child-slice growth is bounded by the input (ALLOCBOUND), Marshal copies out of the pooled buffer (POOLESCAPE).",
@@ -145,6 +150,7 @@ func initProperties() {
 				use("LOOPPROGRESS", "loops consume", protoGeneric),
 				use("UNKNOWNSKIP", "unknown skipped", protoGeneric),
 				use("RWPAIR", "reader primitives per kind", nil),
+				use("KINDEXH", "kind switches exhaustive", anyOf(protoGeneric, protoBinary)),
 			)},
 		{ID: "C08", Title: "Protobuf->JSON conversion emits valid JSON denoting exactly the message",
 			Decides: "balanced JSON on every success path of p2j (JSONPAIR), every legal map-key kind is quoted (MAPKEYQUOTE), unsigned kinds are not routed through a signed formatter (SIGNCONV), the kind switch covers the 15 scalar kinds + MESSAGE (KINDEXH), list/map loops consume and stop on errors (LOOPPROGRESS, DROPERR), unknown = error iff disallowed (NEGPOLARITY).",
@@ -160,6 +166,8 @@ func initProperties() {
 				use("NEGPOLARITY", "unknown handling", inPkgs("conv/p2j")),
 				use("UNKNOWNSKIP", "unknown skipped", inPkgs("conv/p2j")),
 				use("NILLOOKUP", "lookups checked", inPkgs("conv/p2j")),
+				use("NATIVEQUOTE", "string escaper retry contract", nil),
+				use("POOLESCAPE", "result copied out of the pooled buffer", inPkgs("conv/p2j")),
 			)},
 		{ID: "C09", Title: "JSON->Protobuf conversion encodes exactly the value the JSON denotes",
 			Decides: "the visitor's kind switches accept every kind the spec allows for a JSON number/string/bool and map key (KINDEXH), per-kind writer primitives match the spec (RWPAIR), tags use real wire types and map entries use field numbers 1/2 (TAGTYPE, MAPTAG), parse errors are not blanked (DROPERR), unknown = error iff disallowed (NEGPOLARITY).",
@@ -185,6 +193,8 @@ func initProperties() {
 				use("DROPERR", "errors propagate", func(o *Obl) bool { return protoGeneric(o) && mutators(o) }),
 				use("NOTFOUNDEXIT", "absent element changes nothing", protoGeneric),
 				use("INPUTRO", "patching confined", protoGeneric),
+				use("KINDEXH", "kind switches exhaustive", protoGeneric),
+				use("RWPAIR", "per-kind primitives in key/value encoders", protoGeneric),
 			)},
 		{ID: "C11", Title: "Cutting (MarshalTo) yields exactly the projection onto the target schema",
 			Decides: "every success return of thrift marshalTo has consumed from the source and produced output (MUSTCONSUME: identical descriptors must copy, not drop), headers precede elements (HDRFIRST), proto marshalTo finishes its lengths and propagates nested errors (SPECLENPAIR, DROPERR), unknown fields are skipped/rejected per option (UNKNOWNSKIP, NEGPOLARITY), lookups checked (NILLOOKUP), recursion bounded (RECDEPTH), MarshalTo copies out of the pooled buffer (POOLESCAPE).",
@@ -219,6 +229,7 @@ func initProperties() {
 			Uses: uses(
 				use("KINDINV", "emitted kinds accepted", nil),
 				use("KEYSRC", "same keys both ways", nil),
+				use("NATIVEQUOTE", "string escaper retry contract", nil),
 			)},
 		{ID: "C14", Title: "Thrift descriptors mirror the IDL and lookups are exact",
 			Decides: "every name map that is filled is built (BUILDPAIR: without Build every key lookup returns nil), trie/hash Set and Get derive slots through the same helper (SEQAGREE), descriptors are not written after parsing (DESCIMMUT).",
@@ -268,6 +279,8 @@ func initProperties() {
 				use("OPTAGREE", "same options", nil),
 				use("CASEEXIT", "both reject mismatches", nil),
 				use("NATIVERET", "both fail", nil),
+				use("NATIVEQUOTE", "string escaper retry contract", nil),
+				use("CHDRAGREE", "Go constants = C header", nil),
 			)},
 		{ID: "C19", Title: "Thrift protocol codec: write/read inverse, skip exact, envelope faithful",
 			Decides: "skip width = read width = write width per fixed-size type (WIDTHTABLE), container/field headers precede elements in the generic writers (HDRFIRST), structs are closed with STOP (STRUCTPAIR), casted values are the ones written (CASTUSED), precomputed header/footer issue the same writer sequence as WrapBinaryBody (SEQAGREE), type switches exhaustive (KINDEXH), counts bounded (ALLOCBOUND), no size panics (PANICARG).",
